@@ -12,6 +12,7 @@ mod cmd_linkage;
 mod cmd_setmeta;
 mod cmd_setmachine;
 mod cmd_export;
+mod cmd_ontmachine;
 mod cmd_group;
 mod cmd_termid;
 mod cmd_cats;
@@ -50,6 +51,7 @@ fn main() {
         "replay-setmeta" => cmd_setmeta::run(&args),
         "replay-setmachine" => cmd_setmachine::run(&args),
         "replay-export" => cmd_export::run(&args),
+        "replay-ontmachine" => cmd_ontmachine::run(&args),
         "replay-group" => cmd_group::run(&args),
         "replay-termid" => cmd_termid::run(&args),
         "replay-cats" => cmd_cats::run(&args),
@@ -84,6 +86,7 @@ fn main() {
                 "replay-sub" => cmd_sub::replay_one(&v),
                 "replay-setmachine" => cmd_setmachine::replay_one(&v),
                 "replay-export" => cmd_export::replay_one(&v),
+                "replay-ontmachine" => cmd_ontmachine::replay_one(&v),
                 other => {
                     eprintln!("unknown replay cmd {other}");
                     std::process::exit(2)
